@@ -10,7 +10,7 @@ open Yaql Yaql.Strings Yaql.Gen
 
 theorem substring_src_eq (string : Str) (start length : Int) :
     SrcStrings.substring string start length = Strings.substring string start length := by
-  simp only [SrcStrings.substring, Strings.substring, Lemmas.PyPrelude.slice_some_some]
+  simp [SrcStrings.substring, Strings.substring, Lemmas.PyPrelude.slice_some_some, Int.add_comm]
 
 theorem index_of_src_eq (string sub : Str) (start : Int) :
     SrcStrings.index_of string sub start = Strings.indexOf string sub start := by
@@ -18,7 +18,7 @@ theorem index_of_src_eq (string sub : Str) (start : Int) :
 
 theorem index_of4_src_eq (string sub : Str) (start length : Int) :
     SrcStrings.index_of4 string sub start length = Strings.indexOf4 string sub start length := by
-  simp [SrcStrings.index_of4, Strings.indexOf4, PyStr.find]
+  simp [SrcStrings.index_of4, Strings.indexOf4, PyStr.find, Int.add_comm]
 
 theorem last_index_of_src_eq (string sub : Str) (start : Int) :
     SrcStrings.last_index_of string sub start = Strings.lastIndexOf string sub start := by
@@ -26,7 +26,7 @@ theorem last_index_of_src_eq (string sub : Str) (start : Int) :
 
 theorem last_index_of4_src_eq (string sub : Str) (start length : Int) :
     SrcStrings.last_index_of4 string sub start length = Strings.lastIndexOf4 string sub start length := by
-  simp [SrcStrings.last_index_of4, Strings.lastIndexOf4, PyStr.rfind]
+  simp [SrcStrings.last_index_of4, Strings.lastIndexOf4, PyStr.rfind, Int.add_comm]
 
 theorem trim_src_eq (cfg : Cfg) (string : Str) (chars : Option Str) :
     SrcStrings.trim cfg string chars = Strings.trim cfg string chars := by
